@@ -94,6 +94,15 @@ def gen_lines(rng, tier):
         alg = rng.choice([5, 7, 8, 10])
         flags = rng.choice([0, 1, 128, 256, 257, 385])
         lines.append('dnskeyrsaenc %d %d %d %s' % (flags, alg, e, m.hex()))
+        # ECDSA (RFC 6605) and EdDSA (RFC 8080) DNSKEY: coordinates with leading zero octets, at the ends of the range
+        ealg = rng.choice([13, 14])
+        size = 32 if ealg == 13 else 48
+        def coord():    # the whole width or with leading zero octets; neither tiny nor a power of 256 (asn1crypto cannot hold those points)
+            k = rng.choice([8 * size, 8 * size, 8 * size - 9, 8 * size - 17, 8 * size - 30])
+            return rng.getrandbits(k) | (1 << (k - 1)) | 3
+        lines.append('dnskeyecenc %d %d %d %d' % (flags, ealg, coord(), coord()))
+        dalg = rng.choice([15, 16])
+        lines.append('dnskeyedenc %d %d %s' % (flags, dalg, framegen.rnd_bytes(rng, 32 if dalg == 15 else 57).hex()))
     return lines
 
 
@@ -115,6 +124,7 @@ def run(chk):
     br = common.build_runner()
     impl_out = [impl.impl_line(l) for l in lines]
     tag_lines = []
+    dec_lines = []
     if br.ok:
         model_out = common.run_model(lines)
         for l, m, i in diffs_of(model_out, impl_out)[:5]:
@@ -141,6 +151,26 @@ def run(chk):
                 key = 'DnsRecordDnskey.key_tag/odd-length-rdata' if len(rd) % 2 == 1 else None
                 chk.violation('key_tag = %s, RFC 4034 Appendix B over the %d bytes of RDATA = %s' % (i, len(rd), ref),
                               {'cmd': l, 'impl': i, 'reference': ref}, key, True)
+        # the decode direction for ECDSA / EdDSA keys: the RDATA of the specification parsed by the implementation must give
+        # the flags, the algorithm, the coordinates / key octets and, for ECDSA, the curve RFC 6605 assigns to the algorithm
+        dec_lines = ['dnskeydec ' + m[3:] for l, m in zip(lines, model_out) if l.startswith(('dnskeyecenc', 'dnskeyedenc')) and m.startswith('OK ')]
+        nd = 0
+        reported = set()
+        for l, m in zip(dec_lines, common.run_model(dec_lines)):
+            i = impl.impl_line(l)
+            if m != i:
+                mw, iw = m.split(' '), i.split(' ')
+                curve_only = len(mw) == len(iw) == 7 and mw[:4] + mw[5:] == iw[:4] + iw[5:]
+                key = 'DnsRecordDnskey/ecdsap256-named-group' if curve_only and mw[2] == '13' and iw[4] == '1.3.132.0.10' else None
+                if len(mw) == len(iw) == 5 and mw[:4] == iw[:4] and mw[2] == '16' and mw[3] == 'ED' and iw[4] == mw[4][:-2] and len(mw[4]) == 114:
+                    key = 'DnsRecordDnskey/ed448-56-octets'
+                if key in reported or (key is None and nd >= 3):
+                    continue
+                reported.add(key)
+                nd += key is None
+                chk.violation('parsing an RFC-conformant DNSKEY does not recover the encoded key: implementation %s, specification %s' % (i[:160], m[:160]),
+                              {'cmd': l, 'impl': i, 'spec': m}, key, True)
+        chk.coverage['dnskey_decoded'] = len(dec_lines)
     else:
         chk.violation('model runner does not build: %s' % br.failed_file, {'error': br.error}, None, False)
     # internationalised names: U-labels in the object, A-labels (xn--) on the wire, recovered exactly by the parser
@@ -148,9 +178,9 @@ def run(chk):
     for what, rep in idn[:3]:
         chk.violation(what, rep, None, True)
     chk.coverage['idn_names'] = 20 if chk.tier == 'quick' else 400
-    chk.coverage['evaluations'] = len(lines) + len(tag_lines)
+    chk.coverage['evaluations'] = len(lines) + len(tag_lines) + len(dec_lines)
     chk.coverage['distinct_nontrivial'] = len(set(l for l, o in zip(lines, impl_out) if o.startswith('OK')))
-    chk.coverage['traces_validated_against_impl'] = len(lines) + len(tag_lines)
+    chk.coverage['traces_validated_against_impl'] = len(lines) + len(tag_lines) + len(dec_lines)
     chk.coverage['key_tag_rdata_lengths'] = {'odd': sum(1 for l in tag_lines if (len(l.split(' ')[1]) // 2) % 2), 'even': sum(1 for l in tag_lines if not (len(l.split(' ')[1]) // 2) % 2)}
     chk.coverage['rule'] = ('DS, MX, names, TXT, RRSIG (incl. private RR types and the full 32-bit timestamp range) and RSA DNSKEY records (1- and '
                             '3-byte exponent length forms, moduli of 64-256 bytes, all flag combinations) composed by the implementation from '
